@@ -54,6 +54,15 @@ func genConflict() {
 			}
 		}
 		l.defStrList("stmtsWriteHeaderRegLink", route)
+		// entryMode: the mode of the node made for a package entry — the header's mode field is masked to the
+		// permission / set-id / sticky bits before FileInfo() decodes it, so the kind comes from the typeflag alone
+		var em []string
+		if fd := f.fn("entryMode"); fd == nil {
+			problem("tarfs/fs.go: func entryMode not found")
+		} else {
+			em = stmtsOf(f, fd.Body.List)
+		}
+		l.defStrList("stmtsEntryMode", em)
 		hashFn(rel, "memFS.writeHeader")
 		hashFn(rel, "memFS.WriteHeader")
 	}
@@ -69,6 +78,21 @@ func genConflict() {
 			w1 = stmtsOf(f, fd.Body.List)
 		}
 		l.defStrList("stmtsWriteOneFile", w1)
+		// the mode writeOneFile hands to OpenFile(O_CREATE): third argument of the call
+		createMode := ""
+		if fd := f.fn("APK.writeOneFile"); fd != nil {
+			ast.Inspect(fd.Body, func(n ast.Node) bool {
+				ce, ok := n.(*ast.CallExpr)
+				if ok && f.src(ce.Fun) == "a.fs.OpenFile" && len(ce.Args) == 3 && strings.Contains(f.src(ce.Args[1]), "os.O_CREATE") {
+					createMode = f.src(ce.Args[2])
+				}
+				return true
+			})
+			if createMode == "" {
+				problem("install.go: a.fs.OpenFile(…, os.O_CREATE…, mode) not found in writeOneFile")
+			}
+		}
+		l.defStr("streamCreateMode", createMode)
 
 		// installRegularFile: the block entered when writeOneFile(header, r, false) fails, and what follows it
 		var dec, after []string
@@ -184,6 +208,59 @@ func genConflict() {
 			}
 		}
 		l.defStrList("stmtsLazyLoop", lazy)
+		// the ownership test: every `if` on the two install paths whose body assigns a.installedFiles[…] —
+		// (function, condition, assignment); the streaming one sits inside `case tar.TypeReg`
+		var owner [][2]string
+		for _, fn := range []string{"APK.lazilyInstallAPKFiles", "APK.installAPKFiles", "APK.installRegularFile", "APK.writeOneFile"} {
+			fd := f.fn(fn)
+			if fd == nil {
+				continue
+			}
+			n0 := len(owner)
+			var caseOf func(n ast.Node, in string)
+			caseOf = func(n ast.Node, in string) {
+				ast.Inspect(n, func(m ast.Node) bool {
+					if m == n {
+						return true
+					}
+					switch x := m.(type) {
+					case *ast.CaseClause:
+						key := "default"
+						if len(x.List) > 0 {
+							var ks []string
+							for _, e := range x.List {
+								ks = append(ks, f.src(e))
+							}
+							key = strings.Join(ks, ", ")
+						}
+						caseOf(x, in+" case "+key+":")
+						return false
+					case *ast.IfStmt:
+						for _, st := range x.Body.List {
+							if as, ok := st.(*ast.AssignStmt); ok && len(as.Lhs) == 1 && strings.HasPrefix(f.src(as.Lhs[0]), "a.installedFiles[") {
+								owner = append(owner, [2]string{strings.TrimPrefix(fn, "APK.") + in, "if " + f.src(x.Cond) + " { " + f.src(as) + " }"})
+							}
+						}
+					case *ast.AssignStmt:
+						// an assignment outside an `if` would be an unconditional owner: counted by the scan below
+					}
+					return true
+				})
+			}
+			caseOf(fd.Body, "")
+			// every assignment to the map in the function is under one of the conditions found
+			cnt := 0
+			ast.Inspect(fd.Body, func(m ast.Node) bool {
+				if as, ok := m.(*ast.AssignStmt); ok && len(as.Lhs) == 1 && strings.HasPrefix(f.src(as.Lhs[0]), "a.installedFiles[") {
+					cnt++
+				}
+				return true
+			})
+			if cnt != len(owner)-n0 {
+				problem("install.go: %s assigns a.installedFiles[…] %d times, %d of them directly under an if", fn, cnt, len(owner)-n0)
+			}
+		}
+		l.defStrStrList("ownerTests", owner)
 		for _, fn := range []string{"APK.writeOneFile", "APK.installRegularFile", "APK.installAPKFiles", "APK.lazilyInstallAPKFiles", "checksumFromHeader"} {
 			hashFn(rel, fn)
 		}
